@@ -292,7 +292,7 @@ def rule_addr_model(rep: Report, repo: Repo) -> None:
               f'{PRE}:{ins.lineno}', expected='both cursors := the segment start')
     # ReserveBits
     ir = repo.func(PRE, 'PreprocessorData.insert_reserve')
-    iro = method_outcomes(repo, PRE, 'PreprocessorData', 'insert_reserve')
+    iro = [o for o in method_outcomes(repo, PRE, 'PreprocessorData', 'insert_reserve') if o.result[0] != 'raise']      # a range refusal is not a way the address model advances
     body = [f'{k} = {v}' for o in iro for k, v in sorted(o.state.items())] + [e for o in iro for e in o.effects] if len(iro) == 1 else ['<more than one path>']
     rb = repo.func(ASM, 'BinaryData.insert_reserve_bits')
     asm_rb = final_state('insert_reserve_bits')
